@@ -205,7 +205,7 @@ Definition max_width (st : pp_state) : nat :=
 
 Definition format_aggregate (st : pp_state) (t : table) : res (pp_state * str) :=
   match t_rows t with
-  | [] => Ok (st, lit "No data" ++ [10%N])
+  | [] => Ok (st, firstn (max_width st) (lit "No data") ++ [10%N])     (* cut to the terminal width since 7856f06 *)
   | _ =>
       do w1 <- fold_left (fun rw d => do w <- rw; update_widths w d) (t_rows t) (Ok (pp_widths st));
       let w2 := resize_widths w1 (t_cols t) (max_width st) in
